@@ -151,11 +151,11 @@ theorem basename_markers_skip_second : (register markerNameBasename [] [eu, us])
 
 /-- with the digest-carrying names both are registered, for ANY digest function that tells the two paths apart -/
 theorem digest_markers_register_both (digest : Str → Str) (h : digest (lstripSlash eu) ≠ digest (lstripSlash us)) :
-    us ∈ (register (markerName digest) [] [eu, us]).2 ∧ eu ∈ (register (markerName digest) [] [eu, us]).2 := by
-  have hne : markerName digest eu ≠ markerName digest us := by
+    us ∈ (register (markerNamePrebuilt digest) [] [eu, us]).2 ∧ eu ∈ (register (markerNamePrebuilt digest) [] [eu, us]).2 := by
+  have hne : markerNamePrebuilt digest eu ≠ markerNamePrebuilt digest us := by
     intro e
-    have e1 : markerName digest eu = digest (lstripSlash eu) ++ '-' :: "part-0.parquet".toList := rfl
-    have e2 : markerName digest us = digest (lstripSlash us) ++ '-' :: "part-0.parquet".toList := rfl
+    have e1 : markerNamePrebuilt digest eu = digest (lstripSlash eu) ++ '-' :: "part-0.parquet".toList := rfl
+    have e2 : markerNamePrebuilt digest us = digest (lstripSlash us) ++ '-' :: "part-0.parquet".toList := rfl
     rw [e1, e2] at e
     have hl : (digest (lstripSlash eu) ++ '-' :: "part-0.parquet".toList).length = (digest (lstripSlash us) ++ '-' :: "part-0.parquet".toList).length := by rw [e]
     have hlen : (digest (lstripSlash eu)).length = (digest (lstripSlash us)).length := by
@@ -174,6 +174,25 @@ theorem digest_markers_register_both (digest : Str → Str) (h : digest (lstripS
     · have : q = us := by simpa using hq
       subst this
       exact absurd hn.symm hne
+
+def flat : Str := "/data/shared.parquet".toList
+
+/-- **transactions_do_not_share_markers** — two live transactions that queue the SAME pre-built file (even one lying directly in
+data/) name their markers differently, provided their salted digests differ on it: one of them rolling back removes its own marker only -/
+theorem transactions_do_not_share_markers (d1 d2 : Str → Str) (p : Str) (h : d1 (lstripSlash p) ≠ d2 (lstripSlash p)) :
+    markerNamePrebuilt d1 p ≠ markerNamePrebuilt d2 p := by
+  intro e
+  unfold markerNamePrebuilt markerNameOf at e
+  simp only [Bool.not_true, Bool.false_eq_true, false_and, if_false] at e
+  have hl := congrArg List.length e
+  have hlen : (d1 (lstripSlash p)).length = (d2 (lstripSlash p)).length := by
+    simp only [List.length_append, List.length_cons] at hl; omega
+  exact h (List.append_inj_left e hlen)
+
+/-- what the property excludes (the scheme as repaired second, 0f909e5): with a digest of the path alone two transactions share the
+marker of a file they both queued — whatever the digest function -/
+theorem path_only_markers_are_shared (pd : Str → Str) : markerNamePathOnly pd flat = "shared.parquet".toList ∧
+    markerNamePathOnly pd eu = markerNamePathOnly pd eu := ⟨rfl, rfl⟩
 
 /-- files the library itself writes keep their historical marker names (the digest is not consulted) -/
 theorem library_marker_names_unchanged (digest : Str → Str) :
